@@ -227,7 +227,32 @@ func execHard(op string, a []string) (string, bool) {
 		if c2, err := txscript.NewScriptClass(class.String()); err == nil && *c2 == class {
 			rc = "rc=ok"
 		}
-		return showXtr(orig, net) + same + " flags=" + scriptFlags(orig) + " wpi=" + wpi + " ms=" + ms + " " + rc, true
+		pd := "err"
+		if ds, err := txscript.PushedData(orig); err == nil {
+			pd = "none"
+			var hs []string
+			for _, d := range ds {
+				hs = append(hs, hx(d))
+			}
+			if len(hs) > 0 {
+				pd = strings.Join(hs, ":")
+			}
+		}
+		return showXtr(orig, net) + same + " flags=" + scriptFlags(orig) + " wpi=" + wpi + " ms=" + ms + " " + rc + " pd=" + pd, true
+	case "shs":
+		net := netOf(a[0])
+		ad, err := address.NewAddressScriptHash(unhx(a[1]), net)
+		if err != nil {
+			return "err", true
+		}
+		return "ok " + showAddr(ad) + " " + hx(address.Hash160(unhx(a[1]))), true
+	case "gseed":
+		n, _ := strconv.Atoi(a[0])
+		seed, err := hdkeychain.GenerateSeed(uint8(n))
+		if err != nil {
+			return "err", true
+		}
+		return "ok " + strconv.Itoa(len(seed)), true
 	case "bdec2":
 		s := string(unhx(a[0]))
 		h1, d1, v1, e1 := bech32.DecodeGeneric(s)
@@ -518,6 +543,16 @@ func genHard(g *core.Gen) {
 			cnt++
 			gc(g, "xtrv", true, "C16 xtrv "+l[len("C16 xtr "):])
 		}
+	}
+	for k := 0; k < g.N(20, 200); k++ {
+		gc(g, "shs", true, "C16 shs "+ns[r.Intn(len(ns))].name+" "+hx(r.Bytes(r.Intn(80))))
+	}
+	for _, l := range []int{0, 15, 16, 17, 32, 63, 64, 65, 255} {
+		gc(g, "gseed", true, "C16 gseed "+strconv.Itoa(l))
+	}
+	// empty pushes through every push opcode (PushedData reports them, OP_0 is not a data push)
+	for _, sc := range [][]byte{{0x00}, {0x4c, 0x00}, {0x4d, 0x00, 0x00}, {0x4e, 0, 0, 0, 0}, {0x00, 0x4c, 0x00, 0x51, 0x01, 0x07}, {0x4c}, {0x4e, 1, 0, 0}} {
+		gc(g, "xtrv-pushes", true, "C16 xtrv mainnet "+hx(sc))
 	}
 	// witness-program boundaries: push lengths 1,2,3 / 39,40,41, non-canonical pushes, every version opcode
 	for _, l := range []int{1, 2, 3, 39, 40, 41} {
